@@ -269,3 +269,832 @@ Qed.
 End Prefix.
 
 End Inline.
+
+(* ================================================================ Part 2: the Options of the three first nodes *)
+Definition seto (v : Z) (x : rnode) : rnode := let 'RN t _ ch m n str st kids := x in RN t v ch m n str st kids.
+
+Lemma seto_same x : seto (n_o x) x = x. Proof. destruct x; reflexivity. Qed.
+Lemma seto_seto v w x : seto v (seto w x) = seto v x. Proof. destruct x; reflexivity. Qed.
+Lemma seto_set_kids v x k : seto v (set_kids x k) = set_kids (seto v x) k. Proof. destruct x; reflexivity. Qed.
+Lemma n_o_seto v x : n_o (seto v x) = v. Proof. destruct x; reflexivity. Qed.
+Lemma n_t_seto v x : n_t (seto v x) = n_t x. Proof. destruct x; reflexivity. Qed.
+Lemma n_kids_seto v x : n_kids (seto v x) = n_kids x. Proof. destruct x; reflexivity. Qed.
+Lemma set_kids_set_kids x k k' : set_kids (set_kids x k) k' = set_kids x k'. Proof. destruct x; reflexivity. Qed.
+Lemma n_kids_set_kids x k : n_kids (set_kids x k) = k. Proof. destruct x; reflexivity. Qed.
+Lemma n_t_set_kids x k : n_t (set_kids x k) = n_t x. Proof. destruct x; reflexivity. Qed.
+Lemma n_o_set_kids x k : n_o (set_kids x k) = n_o x. Proof. destruct x; reflexivity. Qed.
+
+(* the same node up to Options, RightToLeft kept *)
+Definition oeqn (x x' : rnode) : Prop := exists v, x' = seto v x /\ useRTL v = useRTL (n_o x).
+Definition is_ec (t : Z) : bool := (t =? T_Empty) || (t =? T_Concatenate).
+(* a reduced first Concatenate: itself or its only child (equal), or an Empty / Concatenate made from it *)
+Definition krel (x x' : rnode) : Prop := x = x' \/ (is_ec (n_t x) = true /\ oeqn x x').
+(* the reduced Alternate *)
+Definition yrel (y y' : rnode) : Prop :=
+  y = y' \/ ((is_ec (n_t y) || (n_t y =? T_Nothing)) = true /\ oeqn y y') \/
+  (n_t y = T_Alternate /\ exists v x x' r, n_kids y = x :: r /\ krel x x' /\ y' = set_kids (seto v y) (x' :: r) /\ useRTL v = useRTL (n_o y)).
+
+Lemma krel_refl x : krel x x. Proof. left; reflexivity. Qed.
+Lemma oeqn_refl x : oeqn x x. Proof. exists (n_o x). rewrite seto_same. auto. Qed.
+
+Definition rrel {A} (R : A -> A -> Prop) (x y : res A) : Prop :=
+  match x, y with
+  | Ok a, Ok b => R a b
+  | Err c, Err c' => c = c'
+  | Crash w, Crash w' => w = w'
+  | Fuel, Fuel => True
+  | _, _ => False
+  end.
+
+Definition prel {A} (R : A -> A -> Prop) (x y : pr A) : Prop :=
+  match x, y with
+  | POk a, POk b => R a b
+  | PE c q, PE c' q' => c = c' /\ q = q'
+  | PO, PO => True
+  | PC w, PC w' => w = w'
+  | PF, PF => True
+  | _, _ => False
+  end.
+
+Lemma prel_bind {A B} (R : A -> A -> Prop) (R' : B -> B -> Prop) x y (f g : A -> pr B) :
+  prel R x y -> (forall a b, R a b -> prel R' (f a) (g b)) -> prel R' (pbind x f) (pbind y g).
+Proof. intros H K. destruct x, y; cbn in *; try contradiction; auto. Qed.
+
+Lemma prel_refl {A} (R : A -> A -> Prop) x : (forall a, R a a) -> prel R x x.
+Proof. intros H. destruct x; cbn; auto. Qed.
+
+Lemma prel_of_res {A} (R : A -> A -> Prop) x y q : rrel R x y -> prel R (of_res x q) (of_res y q).
+Proof. destruct x, y; cbn; try contradiction; auto. Qed.
+
+Definition pmap {A B} (f : A -> B) (x : pr A) : pr B := pbind x (fun a => POk (f a)).
+Definition rmap {A B} (f : A -> B) (x : res A) : res B := bind x (fun a => Ok (f a)).
+
+Section Relabel.
+Variable is_word_char : Z -> bool.
+Variable to_lower : Z -> Z.
+Variable simple_fold : Z -> Z.
+Variable participates : Z -> bool.
+Variable cat_in : Z -> Z -> bool.
+Variable cat_name : list Z -> Z.
+
+Local Notation reduce := (reduce cat_in).
+Local Notation add_child := (add_child cat_in).
+Local Notation reduce_alternation := (reduce_alternation cat_in).
+Local Notation sl_step := (sl_step cat_in).
+Local Notation sl_run := (sl_run cat_in).
+
+Lemma add_child_eq p c : add_child p c = do r <- reduce c ; Ok (set_kids p (n_kids p ++ [r])).
+Proof. reflexivity. Qed.
+
+Lemma add_child_seto v c u : add_child (seto v c) u = rmap (seto v) (add_child c u).
+Proof.
+  unfold Parser.add_child, rmap. destruct (reduce u) as [r| | |]; cbn [bind]; try reflexivity.
+  destruct c; reflexivity.
+Qed.
+
+Lemma reverse_left_seto v c : useRTL v = useRTL (n_o c) -> reverse_left (seto v c) = seto v (reverse_left c).
+Proof. intros H. unfold reverse_left. rewrite n_o_seto, n_t_seto, n_kids_seto, H. destruct (useRTL (n_o c) && (n_t c =? T_Concatenate)); [rewrite seto_set_kids|]; reflexivity. Qed.
+
+Lemma reverse_left_t c : n_t (reverse_left c) = n_t c.
+Proof. unfold reverse_left. destruct (useRTL (n_o c) && (n_t c =? T_Concatenate)); [apply n_t_set_kids | reflexivity]. Qed.
+Lemma reverse_left_o c : n_o (reverse_left c) = n_o c.
+Proof. unfold reverse_left. destruct (useRTL (n_o c) && (n_t c =? T_Concatenate)); [apply n_o_set_kids | reflexivity]. Qed.
+
+Lemma reduce_concat_eq o ch m n str st kids :
+  reduce (RN T_Concatenate o ch m n str st kids) = reduce_concatenation (RN T_Concatenate (clear_I o) ch m n str st kids).
+Proof. destruct kids; reflexivity. Qed.
+
+Lemma reduce_alt_eq o ch m n str st kids :
+  reduce (RN T_Alternate o ch m n str st kids) = reduce_alternation (RN T_Alternate (clear_I o) ch m n str st kids).
+Proof. destruct kids; reflexivity. Qed.
+
+(* the first Concatenate, reduced *)
+Lemma reduce_concat_rel c v : n_t c = T_Concatenate -> useRTL v = useRTL (n_o c) -> rrel krel (reduce c) (reduce (seto v c)).
+Proof.
+  intros Ht Hr. destruct c as [t o ch m n str st kids]. cbn [n_t n_o seto] in *. subst t.
+  rewrite !reduce_concat_eq. unfold Parser.reduce_concatenation. cbn [n_kids n_o].
+  assert (R1 : useRTL (clear_I v) = useRTL (clear_I o)) by (rewrite !useRTL_clear_I; exact Hr).
+  destruct kids as [|k0 [|k1 kr]].
+  - cbn. right. split; [reflexivity|]. exists (clear_I v). split; [reflexivity | exact R1].
+  - cbn. left. reflexivity.
+  - destruct (find (fun k => n_t k =? T_Nothing) (k0 :: k1 :: kr)); [cbn; left; reflexivity|].
+    destruct (cl_loop k0 (k1 :: kr)) as [l1| | |]; cbn [bind rrel]; auto.
+    rewrite R1. destruct (st_run (mkST [] false 0) (flat_map (flat_concat (useRTL (clear_I o))) l1)) as [s| | |]; cbn [bind rrel]; auto.
+    unfold replace_if_unnecessary. cbn [set_kids n_kids n_t n_o].
+    destruct (rev (st_out s)) as [|a [|b r]].
+    + right. split; [reflexivity|]. exists (clear_I v). split; [reflexivity | exact R1].
+    + left. reflexivity.
+    + right. split; [reflexivity|]. exists (clear_I v). split; [reflexivity | exact R1].
+Qed.
+
+(* ---- the first Alternate, reduced *)
+Lemma is_ec_cases t : is_ec t = true -> t = T_Empty \/ t = T_Concatenate.
+Proof. unfold is_ec. lia. Qed.
+
+Lemma oeqn_t x x' : oeqn x x' -> n_t x' = n_t x.
+Proof. intros [v [-> _]]. apply n_t_seto. Qed.
+
+Definition same_err {A B} (x : res A) (y : res B) : Prop :=
+  match x, y with Err a, Err b => a = b | Crash a, Crash b => a = b | Fuel, Fuel => True | _, _ => False end.
+
+Lemma sl_step_bottom l x x' w cn o at_ : (l = [] -> w = false) ->
+  match sl_step (mkSL (l ++ [x]) w cn o) at_, sl_step (mkSL (l ++ [x']) w cn o) at_ with
+  | Ok s, Ok s' => exists l2, sl_out s = l2 ++ [x] /\ sl_out s' = l2 ++ [x'] /\ sl_was s' = sl_was s /\ sl_cannot s' = sl_cannot s /\
+                              sl_opt s' = sl_opt s /\ (l2 = [] -> sl_was s = false)
+  | a, b => same_err a b
+  end.
+Proof.
+  intros Hl. unfold Parser.sl_step. cbn [sl_out sl_was sl_cannot sl_opt].
+  destruct ((n_t at_ =? T_Set) || (n_t at_ =? T_One)).
+  - destruct w.
+    + destruct l as [|prev out2]; [discriminate (Hl eq_refl)|]. cbn [app].
+      match goal with |- context [bind ?f _] => destruct f as [[cannot|]| | |] end; cbn [bind same_err]; auto.
+      * exists (at_ :: prev :: out2). cbn. repeat split; auto; discriminate.
+      * destruct (if n_t prev =? T_One then Ok (add_char cat_in empty_cls (n_ch prev)) else match n_set prev with Some c => Ok c | None => Crash 25 end) as [pc| | |];
+          cbn [bind same_err]; auto.
+        destruct (if n_t at_ =? T_One then Ok (add_char cat_in pc (n_ch at_)) else match n_set at_ with Some c => Ok (add_set cat_in pc c) | None => Crash 23 end) as [pc'| | |];
+          cbn [bind same_err]; auto.
+        destruct prev as [pt po pch pm pn pstr pst pk].
+        exists (RN T_Set (clear_I po) pch pm pn pstr (Some pc') pk :: out2). cbn. repeat split; auto; discriminate.
+    + cbn [negb orb].
+      destruct (n_t at_ =? T_Set).
+      * destruct (n_set at_); cbn [bind same_err]; auto. exists (at_ :: l). cbn. repeat split; auto; discriminate.
+      * cbn [bind]. exists (at_ :: l). cbn. repeat split; auto; discriminate.
+  - destruct (n_t at_ =? T_Nothing).
+    + exists l. cbn. repeat split; auto.
+    + exists (at_ :: l). cbn. repeat split; auto; discriminate.
+Qed.
+
+Lemma sl_run_bottom L : forall l x x' w cn o, (l = [] -> w = false) ->
+  match sl_run (mkSL (l ++ [x]) w cn o) L, sl_run (mkSL (l ++ [x']) w cn o) L with
+  | Ok s, Ok s' => exists l2, sl_out s = l2 ++ [x] /\ sl_out s' = l2 ++ [x']
+  | a, b => same_err a b
+  end.
+Proof.
+  induction L as [|at_ L IH]; intros l x x' w cn o Hl; cbn [Parser.sl_run].
+  - exists l. auto.
+  - pose proof (sl_step_bottom l x x' w cn o at_ Hl) as S.
+    destruct (sl_step (mkSL (l ++ [x]) w cn o) at_) as [s| | |], (sl_step (mkSL (l ++ [x']) w cn o) at_) as [s'| | |];
+      cbn [bind same_err] in *; try contradiction; auto.
+    destruct S as [l2 [E1 [E2 [E3 [E4 [E5 E6]]]]]]. destruct s as [o1 w1 c1 p1], s' as [o2 w2 c2 p2]. cbn in *. subst.
+    apply IH. exact E6.
+Qed.
+
+Definition lrel (ks ks' : list rnode) : Prop :=
+  ks = ks' \/ exists x x' rl, ks = x :: rl /\ ks' = x' :: rl /\ is_ec (n_t x) = true /\ oeqn x x'.
+
+Lemma lrel_hd ks ks' : lrel ks ks' -> match ks, ks' with
+  | [], [] => True | x :: r, x' :: r' => r = r' /\ krel x x' | _, _ => False end.
+Proof.
+  intros [-> | [x [x' [rl [-> [-> [E O]]]]]]].
+  - destruct ks'; auto. split; [reflexivity | left; reflexivity].
+  - split; [reflexivity | right; auto].
+Qed.
+
+Lemma replace_alt_rel o1 o2 ch m n str st D D' : lrel D D' -> useRTL o2 = useRTL o1 ->
+  yrel (replace_if_unnecessary (RN T_Alternate o1 ch m n str st D)) (replace_if_unnecessary (RN T_Alternate o2 ch m n str st D')).
+Proof.
+  intros L R. pose proof (lrel_hd D D' L) as H. unfold replace_if_unnecessary. cbn [n_kids n_t n_o].
+  destruct D as [|d [|d2 dr]], D' as [|d' [|d2' dr']]; try contradiction; try (apply proj1 in H; discriminate).
+  - change (T_Alternate =? T_Alternate) with true. cbv iota. right. left. split; [reflexivity|]. exists o2. split; [reflexivity | exact R].
+  - destruct H as [_ [-> | [E O]]]; [left; reflexivity | right; left; split; [rewrite E; reflexivity | exact O]].
+  - destruct H as [H K]. inversion H; subst. right. right. split; [reflexivity|].
+    exists o2, d, d', (d2' :: dr'). cbn. repeat split; auto.
+Qed.
+
+Lemma drop_redundant_rel D D' : lrel D D' -> lrel (drop_redundant false D) (drop_redundant false D').
+Proof.
+  intros [-> | [x [x' [rl [-> [-> [E O]]]]]]]; [left; reflexivity|].
+  cbn [drop_redundant]. rewrite (oeqn_t _ _ O).
+  destruct (is_ec_cases _ E) as [Ht | Ht]; rewrite Ht; cbn [Z.eqb Pos.eqb andb orb];
+    right; eexists _, _, _; (split; [reflexivity|]); (split; [reflexivity|]); split; auto.
+Qed.
+
+Definition alt_post (y0 : rnode) : rnode :=
+  let y := replace_if_unnecessary y0 in if n_t y =? T_Alternate then remove_redundant y else y.
+Definition alt_post_r (y0 : rnode) : res rnode :=
+  let y := replace_if_unnecessary y0 in if n_t y =? T_Alternate then Ok (remove_redundant y) else Ok y.
+Lemma alt_post_r_eq y0 : alt_post_r y0 = Ok (alt_post y0).
+Proof. unfold alt_post_r, alt_post. cbv zeta. destruct (n_t (replace_if_unnecessary y0) =? T_Alternate); reflexivity. Qed.
+
+Lemma alt_post_rel o1 o2 ch m n str st ks ks' : lrel ks ks' -> useRTL o2 = useRTL o1 ->
+  yrel (alt_post (RN T_Alternate o1 ch m n str st ks)) (alt_post (RN T_Alternate o2 ch m n str st ks')).
+Proof.
+  intros L R. pose proof (lrel_hd ks ks' L) as H. unfold alt_post. cbv zeta.
+  destruct ks as [|k [|k2 kr]], ks' as [|k' [|k2' kr']]; try contradiction; try (apply proj1 in H; discriminate).
+  - unfold replace_if_unnecessary. cbn [n_kids n_t n_o]. change (T_Alternate =? T_Alternate) with true. cbv iota.
+    cbn [mk_node n_t]. change (T_Nothing =? T_Alternate) with false. cbv iota.
+    right. left. split; [reflexivity|]. exists o2. split; [reflexivity | exact R].
+  - unfold replace_if_unnecessary at 1 2 3 4. cbn [n_kids].
+    destruct H as [_ [-> | [E O]]]; [left; reflexivity|].
+    rewrite (oeqn_t _ _ O). destruct (is_ec_cases _ E) as [Ht | Ht]; rewrite Ht;
+      [change (T_Empty =? T_Alternate) with false | change (T_Concatenate =? T_Alternate) with false]; cbv iota;
+      right; left; (split; [rewrite Ht; reflexivity | exact O]).
+  - unfold replace_if_unnecessary at 1 2 3 4. cbn [n_kids n_t]. change (T_Alternate =? T_Alternate) with true. cbv iota.
+    unfold remove_redundant. cbn [set_kids n_kids]. apply replace_alt_rel; [|exact R]. apply drop_redundant_rel. exact L.
+Qed.
+
+Lemma flat_alt_ec x : is_ec (n_t x) = true -> flat_alt x = [x].
+Proof. intros E. destruct x as [t o ch m n str st kids]. cbn [n_t] in E. destruct (is_ec_cases _ E) as [-> | ->]; reflexivity. Qed.
+
+Lemma sl_step_ec s x : is_ec (n_t x) = true -> sl_step s x = Ok (mkSL (x :: sl_out s) false false (sl_opt s)).
+Proof. intros E. unfold Parser.sl_step. destruct (is_ec_cases _ E) as [Ht | Ht]; rewrite Ht; reflexivity. Qed.
+
+Lemma reduce_alternation_rel o1 o2 ch m n str st x x' r : krel x x' -> useRTL o2 = useRTL o1 ->
+  rrel yrel (reduce_alternation (RN T_Alternate o1 ch m n str st (x :: r))) (reduce_alternation (RN T_Alternate o2 ch m n str st (x' :: r))).
+Proof.
+  intros K R. unfold Parser.reduce_alternation. cbn [n_kids].
+  destruct r as [|k1 r'].
+  { cbn. destruct K as [-> | [E O]]; [left; reflexivity | right; left; split; [rewrite E; reflexivity | exact O]]. }
+  destruct K as [<- | [E O]].
+  { destruct (sl_run (mkSL [] false false 0) (flatten_alts (x :: k1 :: r'))) as [s| | |]; cbn [bind rrel]; auto.
+    cbn [set_kids].
+    change (rrel yrel (alt_post_r (RN T_Alternate o1 ch m n str st (rev (sl_out s)))) (alt_post_r (RN T_Alternate o2 ch m n str st (rev (sl_out s))))).
+    rewrite !alt_post_r_eq. cbn [rrel]. apply alt_post_rel; [left; reflexivity | exact R]. }
+  unfold flatten_alts. cbn [flat_map]. rewrite (flat_alt_ec x E), (flat_alt_ec x') by (rewrite (oeqn_t _ _ O); exact E).
+  cbn [app Parser.sl_run]. rewrite (sl_step_ec _ x E), (sl_step_ec _ x') by (rewrite (oeqn_t _ _ O); exact E).
+  cbn [bind sl_out sl_opt].
+  pose proof (sl_run_bottom (flat_alt k1 ++ flat_map flat_alt r') [] x x' false false 0 (fun _ => eq_refl)) as S. cbn [app] in S.
+  destruct (sl_run (mkSL [x] false false 0) (flat_alt k1 ++ flat_map flat_alt r')) as [s| | |],
+           (sl_run (mkSL [x'] false false 0) (flat_alt k1 ++ flat_map flat_alt r')) as [s'| | |]; cbn [bind rrel same_err] in *; try contradiction; auto.
+  destruct S as [l2 [E1 E2]]. cbn [set_kids].
+  change (rrel yrel (alt_post_r (RN T_Alternate o1 ch m n str st (rev (sl_out s)))) (alt_post_r (RN T_Alternate o2 ch m n str st (rev (sl_out s'))))).
+  rewrite !alt_post_r_eq. cbn [rrel]. rewrite E1, E2, !rev_app_distr. cbn [rev app].
+  apply alt_post_rel; [|exact R]. right. exists x, x', (rev l2). auto.
+Qed.
+
+(* ---------------------------------------------------------------- the main pass on two states that differ in those Options *)
+Local Notation add_concatenate := (add_concatenate cat_in).
+Local Notation add_concatenate3 := (add_concatenate3 cat_in).
+Local Notation add_ones := (add_ones simple_fold cat_in).
+Local Notation add_to_concatenate := (add_to_concatenate simple_fold participates cat_in).
+Local Notation add_alternate := (add_alternate cat_in).
+Local Notation add_group := (add_group cat_in).
+Local Notation pop_group := (pop_group cat_in).
+Local Notation add_run := (add_run simple_fold participates cat_in).
+Local Notation scan_quantifier := (scan_quantifier cat_in).
+Local Notation after_unit := (after_unit cat_in).
+Local Notation round_open := (round_open is_word_char cat_in).
+Local Notation round_close := (round_close cat_in).
+Local Notation scan_round := (scan_round is_word_char to_lower simple_fold participates cat_in cat_name).
+Local Notation scan_loop_full := (scan_loop_full is_word_char to_lower simple_fold participates cat_in cat_name).
+Local Notation mk_node_ch := (mk_node_ch simple_fold cat_in).
+Local Notation make_quantifier := (make_quantifier cat_in).
+
+(* replace the stack, the group and the alternation, relabel the concatenation *)
+Definition T (s : list (rnode * rnode * rnode)) (g a : rnode) (v : Z) (st : mst) : mst :=
+  mkMS s g a (seto v (ms_concat st)) (ms_unit st) (ms_o st) (ms_os st) (ms_ign st) (ms_autocap st).
+
+Definition same_frame (st r : mst) : Prop :=
+  ms_stack r = ms_stack st /\ ms_group r = ms_group st /\ ms_alt r = ms_alt st /\
+  n_o (ms_concat r) = n_o (ms_concat st) /\ n_t (ms_concat r) = n_t (ms_concat st).
+
+Lemma same_frame_refl st : same_frame st st. Proof. repeat split. Qed.
+Lemma same_frame_trans a b c : same_frame a b -> same_frame b c -> same_frame a c.
+Proof. intros [A1 [A2 [A3 [A4 A5]]]] [B1 [B2 [B3 [B4 B5]]]]. repeat split; congruence. Qed.
+
+Lemma add_child_ot c u r : add_child c u = Ok r -> n_o r = n_o c /\ n_t r = n_t c.
+Proof.
+  unfold Parser.add_child. destruct (reduce u); cbn [bind]; try discriminate. intros H. inversion H; subst.
+  split; [apply n_o_set_kids | apply n_t_set_kids].
+Qed.
+
+(* [F] touches the concatenation and the unit only *)
+Definition conc_only (F : mst -> pr mst) : Prop :=
+  (forall s g a v st, F (T s g a v st) = pmap (T s g a v) (F st)) /\ (forall st r, F st = POk r -> same_frame st r).
+Definition conc_only2 {B} (F : mst -> pr (mst * B)) : Prop :=
+  (forall s g a v st, F (T s g a v st) = pmap (fun rb => (T s g a v (fst rb), snd rb)) (F st)) /\
+  (forall st r b, F st = POk (r, b) -> same_frame st r).
+
+Lemma add_concatenate_conc : conc_only add_concatenate.
+Proof.
+  split.
+  - intros s g a v st. unfold Parser.add_concatenate, pmap, T. cbn [ms_unit ms_concat]. destruct (ms_unit st) as [u|]; [|reflexivity].
+    rewrite add_child_seto. destruct (add_child (ms_concat st) u); reflexivity.
+  - intros st r. unfold Parser.add_concatenate. destruct (ms_unit st) as [u|]; [|discriminate].
+    destruct (add_child (ms_concat st) u) as [c| | |] eqn:E; cbn; try discriminate. intros H. inversion H; subst.
+    destruct (add_child_ot _ _ _ E). repeat split; assumption.
+Qed.
+
+Lemma add_concatenate3_conc lazy mn mx : conc_only (fun st => add_concatenate3 st lazy mn mx).
+Proof.
+  split.
+  - intros s g a v st. unfold Parser.add_concatenate3, pmap, T. cbn [ms_unit ms_concat]. destruct (ms_unit st) as [u|]; [|reflexivity].
+    destruct (make_quantifier u lazy mn mx) as [q| | |]; cbn [of_res pbind]; try reflexivity.
+    rewrite add_child_seto. destruct (add_child (ms_concat st) q); reflexivity.
+  - intros st r. unfold Parser.add_concatenate3. destruct (ms_unit st) as [u|]; [|discriminate].
+    destruct (make_quantifier u lazy mn mx) as [q| | |]; cbn [of_res pbind]; try discriminate.
+    destruct (add_child (ms_concat st) q) as [c| | |] eqn:E; cbn; try discriminate. intros H. inversion H; subst.
+    destruct (add_child_ot _ _ _ E). repeat split; assumption.
+Qed.
+
+Lemma add_ones_seto o v s : forall c, add_ones o (seto v c) s = pmap (seto v) (add_ones o c s).
+Proof.
+  induction s as [|ch s IH]; intros c; cbn [Parser.add_ones]; [reflexivity|].
+  destruct (mk_node_ch T_One o ch) as [x| | | |]; cbn [pbind pmap]; try reflexivity.
+  rewrite add_child_seto. destruct (add_child c x) as [c'| | |]; cbn [rmap bind of_res pbind]; try reflexivity.
+  apply IH.
+Qed.
+
+Lemma add_ones_ot o s : forall c r, add_ones o c s = POk r -> n_o r = n_o c /\ n_t r = n_t c.
+Proof.
+  induction s as [|ch s IH]; intros c r; cbn [Parser.add_ones]; [intros H; inversion H; auto|].
+  destruct (mk_node_ch T_One o ch) as [x| | | |]; cbn [pbind]; try discriminate.
+  destruct (add_child c x) as [c'| | |] eqn:E; cbn [of_res pbind]; try discriminate. intros H.
+  destruct (IH _ _ H) as [A B]. destruct (add_child_ot _ _ _ E) as [C D]. split; congruence.
+Qed.
+
+Lemma add_to_concatenate_seto o v c s : add_to_concatenate o (seto v c) s = pmap (seto v) (add_to_concatenate o c s).
+Proof.
+  unfold Parser.add_to_concatenate. destruct s as [|ch [|ch2 s']]; [reflexivity | apply add_ones_seto |].
+  destruct (negb (useI o) || negb (existsb participates (ch :: ch2 :: s'))); [|apply add_ones_seto].
+  rewrite add_child_seto. destruct (add_child c (mk_node_str T_Multi (clear_I o) (ch :: ch2 :: s'))); reflexivity.
+Qed.
+
+Lemma add_to_concatenate_ot o c s r : add_to_concatenate o c s = POk r -> n_o r = n_o c /\ n_t r = n_t c.
+Proof.
+  unfold Parser.add_to_concatenate. destruct s as [|ch [|ch2 s']]; [intros H; inversion H; auto | apply add_ones_ot |].
+  destruct (negb (useI o) || negb (existsb participates (ch :: ch2 :: s'))); [|apply add_ones_ot].
+  destruct (add_child c (mk_node_str T_Multi (clear_I o) (ch :: ch2 :: s'))) eqn:E; cbn; try discriminate.
+  intros H. inversion H; subst. eapply add_child_ot; exact E.
+Qed.
+
+Lemma add_run_conc run isq : conc_only (fun st => add_run st run isq).
+Proof.
+  split.
+  - intros s g a v st. unfold Parser.add_run, pmap. destruct run as [|c0 run']; [reflexivity|]. cbv zeta.
+    change (ms_o (T s g a v st)) with (ms_o st). change (ms_concat (T s g a v st)) with (seto v (ms_concat st)). rewrite add_to_concatenate_seto.
+    destruct (add_to_concatenate (ms_o st) (ms_concat st) (if isq then removelast (c0 :: run') else c0 :: run')) as [c| | | |]; cbn [pmap pbind]; try reflexivity.
+    destruct isq; [|reflexivity].
+    destruct (mk_node_ch T_One (ms_o st) (last (c0 :: run') 0)) as [u| | | |]; reflexivity.
+  - intros st r. unfold Parser.add_run. destruct run as [|c0 run']; [intros H; inversion H; apply same_frame_refl|]. cbv zeta.
+    destruct (add_to_concatenate (ms_o st) (ms_concat st) (if isq then removelast (c0 :: run') else c0 :: run')) as [c| | | |] eqn:E; cbn [pbind]; try discriminate.
+    destruct (add_to_concatenate_ot _ _ _ _ E) as [A B].
+    destruct isq.
+    + destruct (mk_node_ch T_One (ms_o st) (last (c0 :: run') 0)) as [u| | | |]; cbn [pbind]; try discriminate.
+      intros H. inversion H; subst. repeat split; assumption.
+    + intros H. inversion H; subst. repeat split; assumption.
+Qed.
+
+Definition T2 s g a v (x : mst * list Z) : mst * list Z := (T s g a v (fst x), snd x).
+Definition T3 s g a v (x : mst * list Z * bool) : mst * list Z * bool := (T s g a v (fst (fst x)), snd (fst x), snd x).
+
+Lemma scan_quantifier_T s g a v st p : scan_quantifier (T s g a v st) p = pmap (T2 s g a v) (scan_quantifier st p).
+Proof.
+  unfold Parser.scan_quantifier. destruct p as [|ch p1]; [reflexivity|].
+  change (ms_unit (T s g a v st)) with (ms_unit st). change (ms_o (T s g a v st)) with (ms_o st).
+  destruct (ms_unit st) as [u|]; [|reflexivity].
+  match goal with |- context [pbind ?r _] => destruct r as [[[[mn mx] q]|]|e q| | |] end; cbn [pbind pmap]; try reflexivity.
+  - destruct (scan_blank_full (ms_o st) q) as [q1| | | |]; cbn [pbind]; try reflexivity.
+    destruct (if hd_is q1 63 then (true, tl q1) else (false, q1)) as [lazy q2].
+    destruct (mx <? mn); [reflexivity|].
+    rewrite (proj1 (add_concatenate3_conc lazy mn mx)). destruct (add_concatenate3 st lazy mn mx); reflexivity.
+  - rewrite (proj1 add_concatenate_conc). destruct (add_concatenate st); reflexivity.
+Qed.
+
+Lemma scan_quantifier_same st p r q : scan_quantifier st p = POk (r, q) -> same_frame st r.
+Proof.
+  unfold Parser.scan_quantifier. destruct p as [|ch p1]; [discriminate|].
+  destruct (ms_unit st) as [u|]; [|intros H; inversion H; apply same_frame_refl].
+  match goal with |- context [pbind ?r _] => destruct r as [[[[mn mx] q0]|]|e q0| | |] end; cbn [pbind]; try discriminate.
+  - destruct (scan_blank_full (ms_o st) q0) as [q1| | | |]; cbn [pbind]; try discriminate.
+    destruct (if hd_is q1 63 then (true, tl q1) else (false, q1)) as [lazy q2].
+    destruct (mx <? mn); [discriminate|].
+    destruct (add_concatenate3 st lazy mn mx) as [r1| | | |] eqn:E; cbn [pbind]; try discriminate.
+    intros H. inversion H; subst. exact (proj2 (add_concatenate3_conc lazy mn mx) _ _ E).
+  - destruct (add_concatenate st) as [r1| | | |] eqn:E; cbn [pbind]; try discriminate.
+    intros H. inversion H; subst. exact (proj2 add_concatenate_conc _ _ E).
+Qed.
+
+Lemma after_unit_T s g a v st p : after_unit (T s g a v st) p = pmap (T3 s g a v) (after_unit st p).
+Proof.
+  unfold Parser.after_unit. change (ms_o (T s g a v st)) with (ms_o st).
+  destruct (scan_blank_full (ms_o st) p) as [p1| | | |]; cbn [pbind pmap]; try reflexivity.
+  destruct (is_nil p1 || negb (is_true_quantifier p1)).
+  - rewrite (proj1 add_concatenate_conc). destruct (add_concatenate st); reflexivity.
+  - rewrite scan_quantifier_T. destruct (scan_quantifier st p1) as [[r q]| | | |]; reflexivity.
+Qed.
+
+Lemma after_unit_same st p r q w : after_unit st p = POk (r, q, w) -> same_frame st r.
+Proof.
+  unfold Parser.after_unit. destruct (scan_blank_full (ms_o st) p) as [p1| | | |]; cbn [pbind]; try discriminate.
+  destruct (is_nil p1 || negb (is_true_quantifier p1)).
+  - destruct (add_concatenate st) as [r1| | | |] eqn:E; cbn [pbind]; try discriminate.
+    intros H. inversion H; subst. exact (proj2 add_concatenate_conc _ _ E).
+  - destruct (scan_quantifier st p1) as [[r1 q1]| | | |] eqn:E; cbn [pbind]; try discriminate.
+    intros H. inversion H; subst. eapply scan_quantifier_same; exact E.
+Qed.
+
+(* ---- the relation *)
+Definition bg (o : Z) : rnode := mk_node_mn T_Capture o 0 (-1).
+
+(* the bottom frame: the root Capture, its Alternate, and -- until the first "|" -- the first Concatenate *)
+Inductive Bot : rnode -> rnode -> rnode -> rnode -> rnode -> Z -> Prop :=
+| Bot_first og og' a va c v :
+    useRTL og' = useRTL og -> n_t a = T_Alternate -> n_kids a = [] -> n_t c = T_Concatenate ->
+    useRTL v = useRTL (n_o c) -> useRTL va = useRTL (n_o a) ->
+    Bot (bg og) a c (bg og') (seto va a) v
+| Bot_later og og' a va x x' r c :
+    useRTL og' = useRTL og -> n_t a = T_Alternate -> n_kids a = x :: r -> krel x x' -> useRTL va = useRTL (n_o a) ->
+    Bot (bg og) a c (bg og') (set_kids (seto va a) (x' :: r)) (n_o c).
+
+Inductive Frames : list (rnode * rnode * rnode) -> rnode -> rnode -> rnode ->
+                   list (rnode * rnode * rnode) -> rnode -> rnode -> Z -> Prop :=
+| Fr_bot g a c g' a' v : Bot g a c g' a' v -> Frames [] g a c [] g' a' v
+| Fr_up fs g0 a0 c0 g0' a0' v0 g a c : Bot g0 a0 c0 g0' a0' v0 ->
+    Frames (fs ++ [(g0, a0, c0)]) g a c (fs ++ [(g0', a0', seto v0 c0)]) g a (n_o c).
+
+Definition SR (st st' : mst) : Prop :=
+  exists s' g' a' v, st' = T s' g' a' v st /\ Frames (ms_stack st) (ms_group st) (ms_alt st) (ms_concat st) s' g' a' v.
+
+Lemma Bot_concat g a c g' a' v c2 : Bot g a c g' a' v -> n_o c2 = n_o c -> n_t c2 = n_t c -> Bot g a c2 g' a' v.
+Proof.
+  intros B Ho Ht. inversion B; subst.
+  - constructor; auto; congruence.
+  - rewrite <- Ho. econstructor; eauto.
+Qed.
+
+Lemma Frames_concat s g a c s' g' a' v c2 : Frames s g a c s' g' a' v -> n_o c2 = n_o c -> n_t c2 = n_t c -> Frames s g a c2 s' g' a' v.
+Proof.
+  intros F Ho Ht. inversion F; subst.
+  - constructor. eapply Bot_concat; eassumption.
+  - rewrite <- Ho. constructor. assumption.
+Qed.
+
+Lemma Frames_same st r s' g' a' v : same_frame st r ->
+  Frames (ms_stack st) (ms_group st) (ms_alt st) (ms_concat st) s' g' a' v ->
+  Frames (ms_stack r) (ms_group r) (ms_alt r) (ms_concat r) s' g' a' v.
+Proof. intros [E1 [E2 [E3 [E4 E5]]]] F. rewrite E1, E2, E3. eapply Frames_concat; eassumption. Qed.
+
+Lemma conc_SR F : conc_only F -> forall st st', SR st st' -> prel SR (F st) (F st').
+Proof.
+  intros [C1 C2] st st' [s' [g' [a' [v [-> Fr]]]]]. rewrite C1. destruct (F st) as [r| | | |] eqn:E; cbn; auto.
+  exists s', g', a', v. split; [reflexivity|]. eapply Frames_same; [apply C2; exact E | exact Fr].
+Qed.
+
+Definition R2 {B} (x y : mst * B) : Prop := SR (fst x) (fst y) /\ snd x = snd y.
+Definition R3 (x y : mst * list Z * bool) : Prop := SR (fst (fst x)) (fst (fst y)) /\ snd (fst x) = snd (fst y) /\ snd x = snd y.
+
+Lemma after_unit_SR st st' p : SR st st' -> prel R3 (after_unit st p) (after_unit st' p).
+Proof.
+  intros [s' [g' [a' [v [-> Fr]]]]]. rewrite after_unit_T. destruct (after_unit st p) as [[[r q] w]| | | |] eqn:E; cbn; auto.
+  split; [|auto]. exists s', g', a', v. split; [reflexivity|]. eapply Frames_same; [eapply after_unit_same; exact E | exact Fr].
+Qed.
+
+Lemma SR_set_unit st st' u : SR st st' -> SR (set_unit st u) (set_unit st' u).
+Proof. intros [s' [g' [a' [v [-> Fr]]]]]. exists s', g', a', v. split; [reflexivity | exact Fr]. Qed.
+
+Lemma SR_ctl st st' o os ig ac : SR st st' ->
+  SR (mkMS (ms_stack st) (ms_group st) (ms_alt st) (ms_concat st) (ms_unit st) o os ig ac)
+     (mkMS (ms_stack st') (ms_group st') (ms_alt st') (ms_concat st') (ms_unit st') o os ig ac).
+Proof. intros [s' [g' [a' [v [-> Fr]]]]]. exists s', g', a', v. split; [reflexivity | exact Fr]. Qed.
+
+Lemma SR_fields st st' : SR st st' ->
+  ms_unit st' = ms_unit st /\ ms_o st' = ms_o st /\ ms_os st' = ms_os st /\ ms_ign st' = ms_ign st /\ ms_autocap st' = ms_autocap st /\
+  n_t (ms_group st') = n_t (ms_group st) /\ (ms_stack st = [] <-> ms_stack st' = []).
+Proof.
+  intros [s' [g' [a' [v [-> Fr]]]]]. cbn. repeat split; auto.
+  - inversion Fr; subst; [|reflexivity]. match goal with H : Bot _ _ _ _ _ _ |- _ => inversion H; reflexivity end.
+  - inversion Fr; subst; auto. intros HH. destruct fs; discriminate.
+  - inversion Fr; subst; auto. intros HH. destruct fs; discriminate.
+Qed.
+
+Lemma Bot_inv g a c g' a' v : Bot g a c g' a' v ->
+  exists og og', g = bg og /\ g' = bg og' /\ useRTL og' = useRTL og /\ n_t a = T_Alternate /\
+    ((exists va, n_kids a = [] /\ n_t c = T_Concatenate /\ useRTL v = useRTL (n_o c) /\ useRTL va = useRTL (n_o a) /\ a' = seto va a) \/
+     (exists va x x' r, n_kids a = x :: r /\ krel x x' /\ useRTL va = useRTL (n_o a) /\ a' = set_kids (seto va a) (x' :: r) /\ v = n_o c)).
+Proof.
+  intros B. inversion B; subst; exists og, og'; repeat (split; [solve [auto]|]).
+  - left. exists va. auto.
+  - right. exists va, x, x', r. auto.
+Qed.
+
+Lemma SR_bot_intro g a c g' a' v u o os ig ac : Bot g a c g' a' v ->
+  SR (mkMS [] g a c u o os ig ac) (mkMS [] g' a' (seto v c) u o os ig ac).
+Proof. intros B. exists [], g', a', v. split; [reflexivity | constructor; exact B]. Qed.
+
+Lemma SR_up_intro fs g0 a0 c0 g0' a0' v0 g a c u o os ig ac : Bot g0 a0 c0 g0' a0' v0 ->
+  SR (mkMS (fs ++ [(g0, a0, c0)]) g a c u o os ig ac) (mkMS (fs ++ [(g0', a0', seto v0 c0)]) g a c u o os ig ac).
+Proof.
+  intros B. exists (fs ++ [(g0', a0', seto v0 c0)]), g, a, (n_o c). split.
+  - unfold T. cbn. rewrite seto_same. reflexivity.
+  - constructor. exact B.
+Qed.
+
+Lemma SR_cases st st' : SR st st' ->
+  (exists g a c g' a' v u o os ig ac, st = mkMS [] g a c u o os ig ac /\ st' = mkMS [] g' a' (seto v c) u o os ig ac /\ Bot g a c g' a' v) \/
+  (exists fs g0 a0 c0 g0' a0' v0 g a c u o os ig ac,
+     st = mkMS (fs ++ [(g0, a0, c0)]) g a c u o os ig ac /\ st' = mkMS (fs ++ [(g0', a0', seto v0 c0)]) g a c u o os ig ac /\
+     Bot g0 a0 c0 g0' a0' v0).
+Proof.
+  intros [s' [g' [a' [v [-> Fr]]]]]. destruct st as [stk g a c u o os ig ac]. cbn [ms_stack ms_group ms_alt ms_concat] in Fr.
+  inversion Fr; subst.
+  - left. exists g, a, c, g', a', v, u, o, os, ig, ac. auto.
+  - right. exists fs, g0, a0, c0, g0', a0', v0, g', a', c, u, o, os, ig, ac. split; [reflexivity|]. split; [|assumption].
+    unfold T. cbn. rewrite seto_same. reflexivity.
+Qed.
+
+Lemma fresh_alt_step og og' a va r r' (o : Z) u os ig ac :
+  useRTL og' = useRTL og -> n_t a = T_Alternate -> n_kids a = [] -> useRTL va = useRTL (n_o a) -> krel r r' ->
+  SR (mkMS [] (bg og) (set_kids a (n_kids a ++ [r])) (mk_node T_Concatenate o) u o os ig ac)
+     (mkMS [] (bg og') (seto va (set_kids a (n_kids a ++ [r']))) (mk_node T_Concatenate o) u o os ig ac).
+Proof.
+  intros R1 Ht Hk R2 K. rewrite Hk. cbn [app].
+  replace (seto va (set_kids a [r'])) with (set_kids (seto va (set_kids a [r])) [r']) by (destruct a; reflexivity).
+  change (mk_node T_Concatenate o) with (seto (n_o (mk_node T_Concatenate o)) (mk_node T_Concatenate o)) at 2.
+  apply SR_bot_intro. apply (Bot_later og og' (set_kids a [r]) va r r' [] (mk_node T_Concatenate o)); auto.
+  - rewrite n_t_set_kids. exact Ht.
+  - apply n_kids_set_kids.
+  - rewrite n_o_set_kids. exact R2.
+Qed.
+
+Lemma add_alternate_SR st st' : SR st st' -> prel SR (add_alternate st) (add_alternate st').
+Proof.
+  intros H. destruct (SR_cases _ _ H) as [[g [a [c [g' [a' [v [u [o [os [ig [ac [-> [-> B]]]]]]]]]]]]] |
+                                           [fs [g0 [a0 [c0 [g0' [a0' [v0 [g [a [c [u [o [os [ig [ac [-> [-> B]]]]]]]]]]]]]]]]]].
+  - destruct (Bot_inv _ _ _ _ _ _ B) as [og [og' [-> [-> [R1 [Ht [[va [Hk [Hc [Rv [Ra ->]]]]] | [va [x [x' [r [Hk [K [Ra [-> ->]]]]]]]]]]]]]]].
+    + unfold Parser.add_alternate. cbn [ms_concat ms_group ms_alt ms_o ms_stack ms_unit ms_os ms_ign ms_autocap].
+      change (is_cond_t (n_t (bg og))) with false. change (is_cond_t (n_t (bg og'))) with false. cbv iota.
+      rewrite reverse_left_seto by exact Rv. rewrite add_child_seto. unfold Parser.add_child.
+      pose proof (reduce_concat_rel (reverse_left c) v ltac:(rewrite reverse_left_t; exact Hc) ltac:(rewrite reverse_left_o; exact Rv)) as RR.
+      destruct (reduce (reverse_left c)) as [r| | |], (reduce (seto v (reverse_left c))) as [r'| | |];
+        cbn [rrel bind rmap of_res pbind prel] in *; try contradiction; auto.
+      apply fresh_alt_step; assumption.
+    + unfold Parser.add_alternate. cbn [ms_concat ms_group ms_alt ms_o ms_stack ms_unit ms_os ms_ign ms_autocap].
+      change (is_cond_t (n_t (bg og))) with false. change (is_cond_t (n_t (bg og'))) with false. cbv iota.
+      rewrite seto_same. unfold Parser.add_child. rewrite n_kids_set_kids, Hk.
+      destruct (reduce (reverse_left c)) as [k| | |]; cbn [bind of_res pbind prel]; auto.
+      rewrite set_kids_set_kids.
+      replace (set_kids (seto va a) ((x' :: r) ++ [k])) with (set_kids (seto va (set_kids a ((x :: r) ++ [k]))) (x' :: (r ++ [k]))) by (destruct a; reflexivity).
+      change (mk_node T_Concatenate o) with (seto (n_o (mk_node T_Concatenate o)) (mk_node T_Concatenate o)) at 2.
+      apply SR_bot_intro. apply (Bot_later og og' (set_kids a ((x :: r) ++ [k])) va x x' (r ++ [k]) (mk_node T_Concatenate o)); auto.
+      * rewrite n_t_set_kids. exact Ht.
+      * apply n_kids_set_kids.
+      * rewrite n_o_set_kids. exact Ra.
+  - unfold Parser.add_alternate. cbn [ms_concat ms_group ms_alt ms_o ms_stack ms_unit ms_os ms_ign ms_autocap].
+    destruct (is_cond_t (n_t g)).
+    + destruct (add_child g (reverse_left c)) as [g1| | |]; cbn [of_res pbind prel]; auto. apply SR_up_intro. exact B.
+    + destruct (add_child a (reverse_left c)) as [a1| | |]; cbn [of_res pbind prel]; auto. apply SR_up_intro. exact B.
+Qed.
+
+Lemma app_last_cons {A} (fs : list A) f : exists h t, fs ++ [f] = h :: t.
+Proof. destruct fs as [|h t]; [exists f, [] | exists h, (t ++ [f])]; reflexivity. Qed.
+
+(* addGroup inside a group: the frames on the stack are not read *)
+Lemma add_group_up fs g0 a0 c0 g0' a0' v0 g a c u o os ig ac : Bot g0 a0 c0 g0' a0' v0 ->
+  prel SR (add_group (mkMS (fs ++ [(g0, a0, c0)]) g a c u o os ig ac)) (add_group (mkMS (fs ++ [(g0', a0', seto v0 c0)]) g a c u o os ig ac)).
+Proof.
+  intros B. unfold Parser.add_group. cbn [ms_concat ms_group ms_alt ms_o ms_stack ms_unit ms_os ms_ign ms_autocap]. cbv zeta.
+  destruct (is_cond_t (n_t g)).
+  - destruct (add_child g (reverse_left c)) as [g1| | |]; cbn [of_res pbind prel]; auto.
+    destruct ((n_t g1 =? T_BackRefCond) && (2 <? zlen (n_kids g1)) || (3 <? zlen (n_kids g1))); cbn [prel]; auto.
+    apply SR_up_intro. exact B.
+  - destruct (add_child a (reverse_left c)) as [a1| | |]; cbn [of_res pbind prel]; auto.
+    destruct (add_child g a1) as [g1| | |]; cbn [of_res pbind prel]; auto. apply SR_up_intro. exact B.
+Qed.
+
+Lemma pop_group_SR st st' : SR st st' -> prel SR (pop_group st) (pop_group st').
+Proof.
+  intros H. destruct (SR_cases _ _ H) as [[g [a [c [g' [a' [v [u [o [os [ig [ac [-> [-> B]]]]]]]]]]]]] |
+                                           [fs [g0 [a0 [c0 [g0' [a0' [v0 [g [a [c [u [o [os [ig [ac [-> [-> B]]]]]]]]]]]]]]]]]].
+  - cbn. reflexivity.
+  - unfold Parser.pop_group. cbn [ms_stack ms_unit ms_o ms_os ms_ign ms_autocap].
+    destruct fs as [|[[g1 a1] c1] fs']; cbn [app].
+    + destruct (Bot_inv _ _ _ _ _ _ B) as [og [og' [-> [-> _]]]].
+      change (n_t (bg og) =? T_ExprCond) with false. change (n_t (bg og') =? T_ExprCond) with false. cbn [andb prel].
+      apply SR_bot_intro. exact B.
+    + destruct ((n_t g1 =? T_ExprCond) && match n_kids g1 with [] => true | _ => false end).
+      * destruct u as [u|]; [|cbn; auto]. destruct (add_child g1 u) as [g2| | |]; cbn [of_res pbind prel]; auto.
+        apply SR_up_intro. exact B.
+      * cbn [prel]. apply SR_up_intro. exact B.
+Qed.
+
+Lemma pop_options_SR st st' : SR st st' -> prel SR (pop_options st) (pop_options st').
+Proof.
+  intros H. destruct (SR_fields _ _ H) as [_ [_ [Eos _]]]. unfold pop_options. rewrite Eos.
+  destruct (ms_os st) as [|o1 r]; cbn [prel]; [reflexivity|].
+  pose proof (SR_ctl st st' o1 r (ms_ign st) (ms_autocap st) H) as K.
+  destruct (SR_fields _ _ H) as [_ [_ [_ [Ei [Ea _]]]]]. rewrite Ei, Ea. exact K.
+Qed.
+
+(* pushGroup; startGroup *)
+Lemma push_start_SR st st' gn : SR st st' -> SR (start_group (push_group st) gn) (start_group (push_group st') gn).
+Proof.
+  intros H. destruct (SR_cases _ _ H) as [[g [a [c [g' [a' [v [u [o [os [ig [ac [-> [-> B]]]]]]]]]]]]] |
+                                           [fs [g0 [a0 [c0 [g0' [a0' [v0 [g [a [c [u [o [os [ig [ac [-> [-> B]]]]]]]]]]]]]]]]]].
+  - unfold start_group, push_group. cbn [ms_stack ms_group ms_alt ms_concat ms_unit ms_o ms_os ms_ign ms_autocap].
+    apply (SR_up_intro [] g a c g' a' v). exact B.
+  - unfold start_group, push_group. cbn [ms_stack ms_group ms_alt ms_concat ms_unit ms_o ms_os ms_ign ms_autocap].
+    apply (SR_up_intro ((g, a, c) :: fs)). exact B.
+Qed.
+
+Lemma round_open_SR tb mco st st' p3 : SR st st' -> prel R2 (round_open tb mco st p3) (round_open tb mco st' p3).
+Proof.
+  intros H. destruct (SR_fields _ _ H) as [Eu [Eo [Eos [Ei [Ea [Et _]]]]]].
+  unfold Parser.round_open. cbv zeta. rewrite Eo, Ei, Ea, Et, Eos.
+  destruct (useRE2 (ms_o st) && negb (ms_ign st) && hd_is p3 63 && nth_is 1 p3 80 && nth_is 2 p3 61).
+  - destruct (python_backref is_word_char tb (ms_o st) (skipn 3 p3)) as [[x q]| | | |]; cbn [pbind prel]; auto.
+    eapply prel_bind; [apply after_unit_SR; apply SR_set_unit; exact H|].
+    intros [[r1 q1] w1] [[r2 q2] w2] [K1 [K2 K3]]. cbn in *. subst. split; [exact K1 | reflexivity].
+  - destruct (Parser.group_open is_word_char tb mco (n_t (ms_group st)) (mkGV (ms_o st) (ms_ign st) (ms_autocap st)) p3) as [[[gg vv] q]| | | |];
+      cbn [pbind prel]; auto.
+    destruct gg as [gn|]; cbn [prel]; (split; [|reflexivity]); cbn [fst].
+    + apply push_start_SR. apply SR_ctl. exact H.
+    + apply SR_ctl. exact H.
+Qed.
+
+Lemma round_close_SR st st' p3 : SR st st' -> prel R2 (round_close st p3) (round_close st' p3).
+Proof.
+  intros H. destruct (SR_cases _ _ H) as [[g [a [c [g' [a' [v [u [o [os [ig [ac [-> [-> B]]]]]]]]]]]]] |
+                                           [fs [g0 [a0 [c0 [g0' [a0' [v0 [g [a [c [u [o [os [ig [ac [-> [-> B]]]]]]]]]]]]]]]]]].
+  - cbn. auto.
+  - unfold Parser.round_close. cbn [ms_stack].
+    destruct (app_last_cons fs (g0, a0, c0)) as [h1 [t1 E1]]. destruct (app_last_cons fs (g0', a0', seto v0 c0)) as [h2 [t2 E2]].
+    rewrite E1 at 1. rewrite E2 at 1. cbv iota.
+    eapply prel_bind; [apply add_group_up; exact B|]. intros s2 s2' H2.
+    eapply prel_bind; [apply pop_group_SR; exact H2|]. intros s3 s3' H3.
+    eapply prel_bind; [apply pop_options_SR; exact H3|]. intros s4 s4' H4.
+    destruct (SR_fields _ _ H4) as [Eu _]. rewrite Eu.
+    destruct (ms_unit s4).
+    + eapply prel_bind; [apply after_unit_SR; exact H4|].
+      intros [[r1 q1] w1] [[r2 q2] w2] [K1 [K2 K3]]. cbn in *. subst. split; [exact K1 | reflexivity].
+    + cbn. split; [exact H4 | reflexivity].
+Qed.
+
+Lemma R3_next (x y : mst * list Z * bool) : R3 x y ->
+  prel R2 (let '(st', q', wq) := x in POk (st', Some (q', wq))) (let '(st', q', wq) := y in POk (st', Some (q', wq))).
+Proof. destruct x as [[r1 q1] w1], y as [[r2 q2] w2]. intros [K1 [K2 K3]]. cbn in *. subst. split; [exact K1 | reflexivity]. Qed.
+
+Lemma scan_round_SR tb mco st st' p w : SR st st' -> prel R2 (scan_round tb mco st p w) (scan_round tb mco st' p w).
+Proof.
+  intros H. destruct (SR_fields _ _ H) as [_ [Eo _]]. unfold Parser.scan_round. cbv zeta. rewrite Eo.
+  destruct (scan_blank_full (ms_o st) p) as [p0| | | |]; cbn [pbind prel]; auto.
+  destruct (take_run (ms_o st) p0) as [run p1].
+  destruct (scan_blank_full (ms_o st) p1) as [p2| | | |]; cbn [pbind prel]; auto.
+  destruct p2 as [|ch p3].
+  { eapply prel_bind; [apply (conc_SR _ (add_run_conc run false)); exact H|]. intros s1 s1' H1. split; [exact H1 | reflexivity]. }
+  destruct (negb (is_special ch)).
+  { eapply prel_bind; [apply (conc_SR _ (add_run_conc run false)); exact H|]. intros s1 s1' H1. split; [exact H1 | reflexivity]. }
+  eapply prel_bind; [apply (conc_SR _ (add_run_conc run (is_quantifier ch))); exact H|]. intros s1 s1' H1.
+  assert (UT : forall (u : pr rnode) q,
+            prel R2 (pdo x <- u ; pdo r <- after_unit (set_unit s1 (Some x)) q ; let '(st', q', wq) := r in POk (st', Some (q', wq)))
+                    (pdo x <- u ; pdo r <- after_unit (set_unit s1' (Some x)) q ; let '(st', q', wq) := r in POk (st', Some (q', wq)))).
+  { intros u q. destruct u as [x| | | |]; cbn [pbind prel]; auto.
+    eapply prel_bind; [apply after_unit_SR; apply SR_set_unit; exact H1|]. intros x1 x2 K. apply R3_next. exact K. }
+  destruct (ch =? 91).
+  { destruct (cs_scan is_word_char cat_name (S (length p3)) false (ms_o st) p3) as [[syn q]| | | |]; cbn [pbind prel]; auto; apply UT. }
+  destruct (ch =? 40); [apply round_open_SR; exact H1|].
+  destruct (ch =? 124).
+  { eapply prel_bind; [apply add_alternate_SR; exact H1|]. intros s2 s2' H2. split; [exact H2 | reflexivity]. }
+  destruct (ch =? 41); [apply round_close_SR; exact H1|].
+  destruct (ch =? 92).
+  { destruct (Parser.scan_backslash_full is_word_char to_lower simple_fold cat_in cat_name false tb (ms_o st) p3) as [[b q]| | | |]; cbn [pbind prel]; auto;
+    destruct b as [x|]; [exact (UT (POk x) q) | cbn; auto]. }
+  destruct ((ch =? 94) || (ch =? 36) || (ch =? 46)); [apply UT|].
+  destruct ((ch =? 123) || (ch =? 42) || (ch =? 43) || (ch =? 63)); [|cbn; auto].
+  destruct (SR_fields _ _ H1) as [Eu1 _]. rewrite Eu1. destruct (ms_unit s1); [|cbn; auto].
+  eapply prel_bind; [apply after_unit_SR; exact H1|]. intros x1 x2 K. apply R3_next. exact K.
+Qed.
+
+Lemma loop_SR tb mco f : forall st st' p w, SR st st' -> prel SR (scan_loop_full f tb mco st p w) (scan_loop_full f tb mco st' p w).
+Proof.
+  induction f as [|f IH]; intros st st' p w H; cbn [Parser.scan_loop_full]; [cbn; auto|].
+  destruct p as [|c p']; [exact H|].
+  eapply prel_bind; [apply scan_round_SR; exact H|]. intros [s1 n1] [s1' n1'] [K1 K2]. cbn [fst snd] in K1, K2. subst n1'.
+  destruct n1 as [[q wq]|]; [apply IH; exact K1 | exact K1].
+Qed.
+
+(* ---- the end: addGroup on the bottom frame *)
+Definition rootrel (t t' : rnode) : Prop :=
+  exists og og' y y', useRTL og' = useRTL og /\ t = set_kids (bg og) [y] /\ t' = set_kids (bg og') [y'] /\ yrel y y'.
+
+Lemma finish_SR r r' : prel SR r r' -> prel rootrel (finish cat_in r) (finish cat_in r').
+Proof.
+  intros H. unfold finish. eapply prel_bind; [exact H|]. clear r r' H. intros st st' H.
+  destruct (SR_cases _ _ H) as [[g [a [c [g' [a' [v [u [o [os [ig [ac [-> [-> B]]]]]]]]]]]]] |
+                                 [fs [g0 [a0 [c0 [g0' [a0' [v0 [g [a [c [u [o [os [ig [ac [-> [-> B]]]]]]]]]]]]]]]]]].
+  - cbn [ms_stack]. destruct (Bot_inv _ _ _ _ _ _ B) as [og [og' [-> [-> [R1 [Ht [[va [Hk [Hc [Rv [Ra ->]]]]] | [va [x [x' [r [Hk [K [Ra [-> ->]]]]]]]]]]]]]]].
+    + unfold Parser.add_group. cbn [ms_concat ms_group ms_alt ms_o ms_stack ms_unit ms_os ms_ign ms_autocap]. cbv zeta.
+      change (is_cond_t (n_t (bg og))) with false. change (is_cond_t (n_t (bg og'))) with false. cbv iota.
+      rewrite reverse_left_seto by exact Rv. rewrite add_child_seto.
+      rewrite (add_child_eq a (reverse_left c)), (add_child_eq a (seto v (reverse_left c))).
+      pose proof (reduce_concat_rel (reverse_left c) v ltac:(rewrite reverse_left_t; exact Hc) ltac:(rewrite reverse_left_o; exact Rv)) as RR.
+      destruct (reduce (reverse_left c)) as [k| | |], (reduce (seto v (reverse_left c))) as [k'| | |];
+        cbn [rrel bind rmap of_res pbind prel] in *; try contradiction; auto.
+      rewrite Hk. cbn [app]. destruct a as [t oa ch m n str st kids]. cbn [n_t n_o] in *. subst t. cbn [set_kids seto].
+      unfold Parser.add_child. rewrite !reduce_alt_eq.
+      pose proof (reduce_alternation_rel (clear_I oa) (clear_I va) ch m n str st k k' [] RR ltac:(rewrite !useRTL_clear_I; exact Ra)) as RA.
+      destruct (reduce_alternation (RN T_Alternate (clear_I oa) ch m n str st [k])) as [y| | |],
+               (reduce_alternation (RN T_Alternate (clear_I va) ch m n str st [k'])) as [y'| | |];
+        cbn [rrel bind of_res pbind prel ms_unit] in *; try contradiction; auto.
+      exists og, og', y, y'. auto.
+    + unfold Parser.add_group. cbn [ms_concat ms_group ms_alt ms_o ms_stack ms_unit ms_os ms_ign ms_autocap]. cbv zeta.
+      change (is_cond_t (n_t (bg og))) with false. change (is_cond_t (n_t (bg og'))) with false. cbv iota.
+      rewrite seto_same. rewrite (add_child_eq a (reverse_left c)), (add_child_eq (set_kids (seto va a) (x' :: r)) (reverse_left c)). rewrite n_kids_set_kids, Hk.
+      destruct (reduce (reverse_left c)) as [k| | |]; cbn [bind of_res pbind prel]; auto.
+      rewrite set_kids_set_kids. destruct a as [t oa ch m n str st kids]. cbn [n_t n_o] in *. subst t. cbn [set_kids seto app].
+      unfold Parser.add_child. rewrite !reduce_alt_eq.
+      pose proof (reduce_alternation_rel (clear_I oa) (clear_I va) ch m n str st x x' (r ++ [k]) K ltac:(rewrite !useRTL_clear_I; exact Ra)) as RA.
+      destruct (reduce_alternation (RN T_Alternate (clear_I oa) ch m n str st (x :: r ++ [k]))) as [y| | |],
+               (reduce_alternation (RN T_Alternate (clear_I va) ch m n str st (x' :: r ++ [k]))) as [y'| | |];
+        cbn [rrel bind of_res pbind prel ms_unit] in *; try contradiction; auto.
+      exists og, og', y, y'. auto.
+  - cbn [ms_stack].
+    destruct (app_last_cons fs (g0, a0, c0)) as [h1 [t1 E1]]. destruct (app_last_cons fs (g0', a0', seto v0 c0)) as [h2 [t2 E2]].
+    rewrite E1, E2. cbn. auto.
+Qed.
+
+(* ---------------------------------------------------------------- the statement on trees *)
+Definition rtl_only (o : Z) : Z := if useRTL o then 64 else 0.
+Definition blank_o (x : rnode) : rnode := seto (rtl_only (n_o x)) x.
+Definition norm_alt1 (x : rnode) : rnode := if is_ec (n_t x) then blank_o x else x.
+Definition norm_kid (y : rnode) : rnode :=
+  if is_ec (n_t y) || (n_t y =? T_Nothing) then blank_o y
+  else if n_t y =? T_Alternate then
+    match n_kids y with x :: r => set_kids (blank_o y) (norm_alt1 x :: r) | [] => y end
+  else y.
+(* blank the Options (all but RightToLeft) of the root, of its child when that is an Alternate / Concatenate / Empty /
+   Nothing, and of the first alternative when that is a Concatenate / Empty *)
+Definition norm (t : rnode) : rnode := match n_kids t with [y] => set_kids (blank_o t) [norm_kid y] | _ => t end.
+
+Lemma blank_oeqn x x' : oeqn x x' -> blank_o x' = blank_o x.
+Proof. intros [v [-> R]]. unfold blank_o, rtl_only. rewrite n_o_seto, seto_seto, R. reflexivity. Qed.
+
+Lemma norm_alt1_krel x x' : krel x x' -> norm_alt1 x' = norm_alt1 x.
+Proof.
+  intros [-> | [E O]]; [reflexivity|]. unfold norm_alt1. rewrite (oeqn_t _ _ O), E. apply blank_oeqn. exact O.
+Qed.
+
+Lemma norm_kid_yrel y y' : yrel y y' -> norm_kid y' = norm_kid y.
+Proof.
+  intros [-> | [[E O] | [Ht [v [x [x' [r [Hk [K [-> R]]]]]]]]]]; [reflexivity | |].
+  - unfold norm_kid. rewrite (oeqn_t _ _ O), E. apply blank_oeqn. exact O.
+  - unfold norm_kid. rewrite n_t_set_kids, n_t_seto, Ht, n_kids_set_kids, Hk.
+    change (is_ec T_Alternate || (T_Alternate =? T_Nothing)) with false. change (T_Alternate =? T_Alternate) with true. cbv iota.
+    rewrite (norm_alt1_krel _ _ K). unfold blank_o, rtl_only. rewrite n_o_set_kids, n_o_seto, R.
+    destruct y; reflexivity.
+Qed.
+
+Lemma norm_rootrel t t' : rootrel t t' -> norm t' = norm t.
+Proof.
+  intros [og [og' [y [y' [R [-> [-> Y]]]]]]]. unfold norm. rewrite !n_kids_set_kids, (norm_kid_yrel _ _ Y).
+  unfold blank_o, rtl_only. rewrite !n_o_set_kids. cbn [bg mk_node_mn n_o]. rewrite R. reflexivity.
+Qed.
+
+Definition norm_res (r : res presult) : res presult :=
+  match r with Ok (PR_Tree t c k) => Ok (PR_Tree (norm t) c k) | x => x end.
+
+Lemma SR_init on oc : useRTL oc = useRTL on -> SR (st_init on oc) (st_init oc oc).
+Proof.
+  intros R. unfold st_init.
+  change (mk_node_mn T_Capture on 0 (-1)) with (bg on). change (mk_node_mn T_Capture oc 0 (-1)) with (bg oc).
+  change (mk_node T_Alternate oc) with (seto oc (mk_node T_Alternate on)).
+  change (mk_node T_Concatenate oc) with (seto oc (mk_node T_Concatenate on)).
+  apply SR_bot_intro. constructor; auto.
+Qed.
+
+(* Part 2 *)
+Theorem parse_from_relabel on oc mco_flag p : useRTL oc = useRTL on ->
+  norm_res (parse_from is_word_char to_lower simple_fold participates cat_in cat_name on oc mco_flag p) =
+  norm_res (parse_from is_word_char to_lower simple_fold participates cat_in cat_name oc oc mco_flag p).
+Proof.
+  intros R. unfold parse_from. destruct (negb pl_bounds_ok); [reflexivity|].
+  destruct (negb (forallb (fun c => 0 <=? c) p)); [reflexivity|]. cbv zeta.
+  destruct (count_captures is_word_char to_lower simple_fold cat_in cat_name (mco_flag || useE oc || useRE2 oc) oc p) as [tb|e q| | |];
+    cbn [pbind]; try reflexivity.
+  unfold scan_regex_from.
+  pose proof (finish_SR _ _ (loop_SR (captab_main tb) (mco_flag || useE oc || useRE2 oc) (S (length p)) _ _ p false (SR_init on oc R))) as K.
+  destruct (finish cat_in (scan_loop_full (S (length p)) (captab_main tb) (mco_flag || useE oc || useRE2 oc) (st_init on oc) p false)) as [t|e q| | |],
+           (finish cat_in (scan_loop_full (S (length p)) (captab_main tb) (mco_flag || useE oc || useRE2 oc) (st_init oc oc) p false)) as [t'|e' q'| | |];
+    cbn [prel] in K; try contradiction; cbn [pbind norm_res]; try reflexivity.
+  - rewrite (norm_rootrel _ _ K). reflexivity.
+  - destruct K as [-> _]. reflexivity.
+  - subst. reflexivity.
+Qed.
+
+(* C18 on the parser: "(?cs)" ++ p under o and p under the word "(?cs)" makes of o: the same error code, the same capture
+   table, the same tree up to the Options of the nodes made before the first character was read *)
+Theorem parse_inline_norm cs o mco_flag p : cs <> [] -> forallb ochar cs = true ->
+  norm_res (Parser.parse is_word_char to_lower simple_fold participates cat_in cat_name o mco_flag (inline_prefix cs ++ p)) =
+  norm_res (Parser.parse is_word_char to_lower simple_fold participates cat_in cat_name (inline_word o cs) mco_flag p).
+Proof.
+  intros Hne Hcs. rewrite (parse_inline_prefix is_word_char to_lower simple_fold participates cat_in cat_name cs Hne Hcs).
+  rewrite <- (parse_from_same is_word_char to_lower simple_fold participates cat_in cat_name (inline_word o cs)).
+  apply parse_from_relabel. exact (proj1 (inline_word_top cs Hcs o)).
+Qed.
+
+End Relabel.
+
+(* letters only: "(?imnsx)" switches on exactly these bits *)
+Definition oletter (c : Z) : bool := ochar c && negb (c =? 45) && negb (c =? 43).
+
+Lemma inline_word_letters cs : forall o, forallb oletter cs = true ->
+  inline_word o cs = fold_left (fun a c => Z.lor a (option_from_code c)) cs o.
+Proof.
+  unfold inline_word. induction cs as [|c cs IH]; intros o F; [reflexivity|].
+  cbn [forallb] in F. apply andb_prop in F. destruct F as [F1 F2]. unfold oletter, ochar in F1.
+  cbn [ochars_of fold_left]. destruct (c =? 45); [rewrite !andb_false_r in F1; cbn in F1; discriminate|].
+  destruct (c =? 43); [rewrite !andb_false_r in F1; discriminate|]. cbn [orb negb andb] in F1. rewrite !andb_true_r in F1.
+  destruct ((option_from_code c =? 0) || is_only_top_option (option_from_code c)); [discriminate|].
+  specialize (IH (Z.lor o (option_from_code c)) F2). destruct (ochars_of cs) as [l r]. cbn [fst scan_options] in *. exact IH.
+Qed.
